@@ -184,6 +184,109 @@ Section Notify.
       - exact (loop_notes fuel ev (ep_registry st) w w' st HSC Hst (fun rb Hi => Hi) ND H).
     Qed.
 
+    (* ---- 4. a second evaluateAll right after the first: nothing at all happens ---- *)
+    Lemma eval_clean_root val env : forall t T,
+      PropProofs.root_dirty t = false -> abs_tree t = Some T -> (forall p lid, In (p, lid) (A.leaves T) -> val p = Some (env p)) ->
+      eval fn rtl val t = (t, inl (A.val env T), []).
+    Proof.
+      intros t T Hd Ha Hv. destruct t as [v|tg d l hc hm hd|f d c a|f d c a b|f d c a b e0]; cbn [PropProofs.root_dirty abs_tree eval] in *.
+      - inversion Ha; subst. reflexivity.
+      - destruct tg as [p|]; [|discriminate Ha]. inversion Ha; subst T. subst d. rewrite (Hv p l (or_introl eq_refl)). reflexivity.
+      - destruct (abs_tree a) as [a'|]; [|discriminate Ha]. inversion Ha; subst T. subst d. reflexivity.
+      - destruct (abs_tree a) as [a'|]; [|discriminate Ha]. destruct (abs_tree b) as [b'|]; [|discriminate Ha]. inversion Ha; subst T. subst d. reflexivity.
+      - destruct (abs_tree a) as [a'|]; [|discriminate Ha]. destruct (abs_tree b) as [b'|]; [|discriminate Ha]. destruct (abs_tree e0) as [e'|]; [|discriminate Ha].
+        inversion Ha; subst T. subst d. reflexivity.
+    Qed.
+
+    Lemma clean_root t T : abs_tree t = Some T -> A.clean T -> PropProofs.root_dirty t = false.
+    Proof.
+      intros Ha Hc. destruct t as [v|tg d l hc hm hd|f d c a|f d c a b|f d c a b e0]; cbn [PropProofs.root_dirty abs_tree] in *; [reflexivity| | | |].
+      - destruct tg; [|discriminate Ha]. inversion Ha; subst T. exact Hc.
+      - destruct (abs_tree a); [|discriminate Ha]. inversion Ha; subst T. exact (proj1 Hc).
+      - destruct (abs_tree a); [|discriminate Ha]. destruct (abs_tree b); [|discriminate Ha]. inversion Ha; subst T. exact (proj1 Hc).
+      - destruct (abs_tree a); [|discriminate Ha]. destruct (abs_tree b); [|discriminate Ha]. destruct (abs_tree e0); [|discriminate Ha]. inversion Ha; subst T. exact (proj1 Hc).
+    Qed.
+
+    Lemma put_bind_same w b x : get_bind w b = Some x -> put_bind w b (bind_with_root x (b_root x)) = w.
+    Proof.
+      intros Hb. assert (Hn : nth_error (w_binds w) b = Some x).
+      { unfold get_bind in Hb. destruct (nth_error (w_binds w) b) as [y|]; [|discriminate Hb]. destruct (b_alive y); [congruence|discriminate Hb]. }
+      assert (Ex : bind_with_root x (b_root x) = x) by (destruct x; reflexivity). rewrite Ex.
+      unfold put_bind. rewrite (upd_same _ _ _ Hn). destruct w; reflexivity.
+    Qed.
+
+    (* a registered binding that is settled (clean tree, property = expression): evaluating it changes NOTHING *)
+    Lemma settled_evaluate_identity fuel w s b q :
+      LSC w -> LRel w s -> L.LInv F1 F2 F3 (LORD w) s -> lz w b = Some q -> L.done F1 F2 F3 s q ->
+      binding_evaluate fn rtl (set_helper fn rtl (S fuel)) w b = (w, None).
+    Proof.
+      intros (Hinv & Hna & Hsi & Hal) HRel HInv Hl Hdone. pose proof HRel as (R1 & R2).
+      unfold lz in Hl. destruct (get_bind w b) as [x|] eqn:Hb; [|discriminate Hl].
+      assert (Bv : bview w b = Some (leaves (b_root x), Some q)) by (unfold bview; rewrite Hb, Hl; reflexivity).
+      destruct (pi_tgt _ _ _ _ _ _ _ Hinv _ _ _ Bv) as (vq & Evq & Euq).
+      unfold pview in Evq. destruct (lookup (w_props w) q) as [pr|] eqn:Hq; [|discriminate Evq].
+      assert (vq = psigs_of pr) by (cbn in Evq; congruence). subst vq. cbn in Euq.
+      assert (Hlz : lz_of w q = Some x) by (unfold lz_of; rewrite Hq, Euq; exact Hb).
+      destruct (abs_tree (b_root x)) as [T|] eqn:HT; [|exfalso; exact (Hsi _ _ Hlz HT)].
+      assert (Htr : L.ltr s q = Some T) by (rewrite R2, Hlz; exact HT).
+      destruct (Hdone T Htr) as (Hc & Eden). destruct (HInv q T Htr) as (Hsound & _).
+      assert (Hval : forall p0 lid, In (p0, lid) (A.leaves T) -> values w p0 = Some (L.lenv s p0)).
+      { intros p0 lid Hi. destruct (abs_leaf_in _ _ _ _ HT Hi) as (lf & Hlf & Htg0 & _).
+        destruct (leaf_target_exists w b x lf p0 Hinv Hb Hlf Htg0) as (pr0 & Hp & _). unfold values. rewrite Hp. cbn. rewrite (R1 _ _ Hp). reflexivity. }
+      pose proof (eval_clean_root (values w) (L.lenv s) _ _ (clean_root _ _ HT Hc) HT Hval) as He.
+      assert (Ev : A.val (L.lenv s) T = pr_value pr).
+      { rewrite (L.clean_sound_den F1 F2 F3 _ _ Hc Hsound), <- Eden. apply R1. exact Hq. }
+      rewrite (evaluate_equal_result_silent fuel w b x q pr _ _ _ Hb Hl Hq He Ev). cbn [log_fns]. rewrite (put_bind_same w b x Hb). reflexivity.
+    Qed.
+
+    Lemma settled_loop_identity fuel id w s st :
+      LSC w -> LRel w s -> L.LInv F1 F2 F3 (LORD w) s -> nth_error (w_evps w) id = Some st ->
+      (forall rb, In rb (ep_registry st) -> exists q, lz w (snd rb) = Some q /\ L.done F1 F2 F3 s q) ->
+      forall l, (forall rb, In rb l -> In rb (ep_registry st)) -> evalall_loop fn rtl (S fuel) id l w = (w, None).
+    Proof.
+      intros HSC HRel HInv Hst Hall. induction l as [|[rid b] r IH]; intros Hin; cbn [evalall_loop]; [reflexivity|].
+      rewrite Hst. destruct (existsb (fun q => Nat.eqb (fst q) rid) (ep_registry st)); [|apply IH; intros rb Hi; apply Hin; right; exact Hi].
+      destruct (Hall (rid, b) (Hin _ (or_introl eq_refl))) as (q & Hl & Hd). cbn [snd] in Hl.
+      rewrite (settled_evaluate_identity fuel w s b q HSC HRel HInv Hl Hd). apply IH. intros rb Hi. apply Hin. right. exact Hi.
+    Qed.
+
+    (* evaluateAll twice in a row: the second call leaves the whole world - values, trees, connection tables, the record of observer
+       calls and of user-function calls - exactly as it is (every registered binding updates a property, registration order is a
+       duplicate-free dependency order) *)
+    Theorem lazy_second_evalall_identity fuel w e st w1 :
+      LSC w -> LCOH fn w -> lookup (w_bevs w) e = Some ev -> nth_error (w_evps w) ev = Some st ->
+      NoDup (regs_of w (ep_registry st)) -> lchain w (regs_of w (ep_registry st)) ->
+      (forall rb, In rb (ep_registry st) -> lz w (snd rb) <> None) ->
+      step1 fn rtl (S fuel) w (BevEvalAll e) = (w1, None) ->
+      step1 fn rtl (S fuel) w1 (BevEvalAll e) = (w1, None).
+    Proof.
+      intros HSC (s & HRel & HInv) He Hst ND HC Htg H. cbn [step1] in H. rewrite He, Hst in H.
+      change (evalall_loop fn rtl (S fuel) ev (ep_registry st) w = (w1, None)) in H.
+      destruct (sim_lloop fn rtl ev (LORD w) (S fuel) ev (ep_registry st) w s w1 st HSC (fun _ => eq_refl) HRel Hst (fun rb Hi => Hi) H) as (SC' & FR' & Rel').
+      set (regs := regs_of w (ep_registry st)) in *. set (s' := L.eval_all F1 F2 F3 (LORD w) regs s) in *.
+      assert (HInv' : L.LInv F1 F2 F3 (LORD w1) s').
+      { apply (LInv_order_ext fn (LORD w)); [intros p0; apply LFR_LORD; exact FR'|apply L.eval_all_inv; exact HInv]. }
+      pose proof FR' as (A1 & _ & _ & _ & _ & _ & _ & _ & Eev & Ebev & _).
+      cbn [step1]. rewrite Ebev, He, Eev, Hst.
+      change (evalall_loop fn rtl (S fuel) ev (ep_registry st) w1 = (w1, None)).
+      apply (settled_loop_identity fuel ev w1 s' st SC' Rel' HInv'); [rewrite Eev; exact Hst| |intros rb Hi; exact Hi].
+      intros rb Hi. rewrite A1. destruct (lz w (snd rb)) as [q|] eqn:El; [|exfalso; exact (Htg rb Hi El)].
+      exists q. split; [reflexivity|]. intros T HT.
+      assert (Hq : In q regs). { unfold regs, regs_of. apply in_flat_map. exists rb. split; [exact Hi|rewrite El; left; reflexivity]. }
+      exact (L.eval_all_consistent F1 F2 F3 (LORD w) regs s HInv ND (chain_of_lchain w s HRel regs HC) q T Hq HT).
+    Qed.
+
+    Corollary lazy_second_evalall_runs_nothing fuel w e st w1 w2 r :
+      LSC w -> LCOH fn w -> lookup (w_bevs w) e = Some ev -> nth_error (w_evps w) ev = Some st ->
+      NoDup (regs_of w (ep_registry st)) -> lchain w (regs_of w (ep_registry st)) ->
+      (forall rb, In rb (ep_registry st) -> lz w (snd rb) <> None) ->
+      step1 fn rtl (S fuel) w (BevEvalAll e) = (w1, None) ->
+      step1 fn rtl (S fuel) w1 (BevEvalAll e) = (w2, r) -> r = None /\ w_trace w2 = w_trace w1.
+    Proof.
+      intros HSC HC He Hst ND HL Htg H1 H2. rewrite (lazy_second_evalall_identity fuel w e st w1 HSC HC He Hst ND HL Htg H1) in H2.
+      inversion H2; subst. split; reflexivity.
+    Qed.
+
     (* ... in every world reached by a history of PropMoveLazy.grow_op_lazy3 operations no premise is left *)
     Theorem lazy3_reachable_notifies_only_changes f ops e w' :
       PropMoveLazy.lazy_run3_ok fn rtl f world0 ops ->
